@@ -13,10 +13,10 @@ import (
 	"math/big"
 	"os"
 	"regexp"
-	"time"
 	"runtime/debug"
 	"sort"
 	"strings"
+	"time"
 	"unicode"
 	"unicode/utf8"
 
@@ -291,8 +291,8 @@ type item struct {
 	literal   bool        // src is a hand-written literal (not inspect output)
 	mayReject bool        // rejection is an admissible outcome (out-of-range literal)
 	nt        bool
-	skipIf    func() bool // the case is attributed to an element defect reported elsewhere
-	classFn   func(how string, okv []bool) string              // class computed from the other items' results
+	skipIf    func() bool                                // the case is attributed to an element defect reported elsewhere
+	classFn   func(how string, okv []bool) string        // class computed from the other items' results
 	cmp       func(orig, got value.Value) (bool, string) // replaces same()
 }
 
@@ -605,10 +605,10 @@ func intSet() []*big.Int {
 func toElkInt(z *big.Int) value.Value { return value.ToElkBigInt(new(big.Int).Set(z)).Normalize() }
 
 type fixedType struct {
-	suffix   string
-	bits     uint
-	signed   bool
-	mk       func(z *big.Int) value.Value
+	suffix string
+	bits   uint
+	signed bool
+	mk     func(z *big.Int) value.Value
 }
 
 func fixedTypes() []fixedType {
@@ -651,9 +651,9 @@ func main() {
 		Prop:  "C19",
 		Level: "exploration",
 		Rule: "values built through the Go API: every Char U+0000–U+02FF + 6 boundary code points (thorough: the whole BMP without surrogates + every 257th astral code point); " +
-			"every String and every Symbol of ≤ 2 (thorough: 3) units over 49 units (controls, quotes, backslash, $ # { }, U+0080/9F/A0/AD/E9/FF, BMP and astral graphic/non-graphic, 5 invalid UTF-8 byte sequences) + 40 hand-picked symbol names; " +
-			"64 floats × Float/Float32/Float64/BigFloat (+ high-precision BigFloats); Int boundary set; min/min+1/-1/0/1/max-1/max of the 9 fixed-width types; 12 regex sources × all 64 flag sets; 8 range kinds × 8 endpoint pairs; " +
-			"lists/tuples/sets of ≤ 2 and maps/records of 1–2 entries over 21 atoms, and depth-2 collections over 15 depth-1 collections + 4 atoms; each is inspected, the text evaluated by checker+VM, the value compared with vm.Equal both ways + class. " +
+			"every String and every Symbol of ≤ 2 (thorough: 3) units over 49 units (controls, quotes, backslash, $ # { }, U+0080/9F/A0/AD/E9/FF, BMP and astral graphic/non-graphic, 5 invalid UTF-8 byte sequences) + 45 hand-picked symbol names; " +
+			"64 floats × Float/Float32/Float64/BigFloat (+ high-precision BigFloats); Int boundary set; min/min+1/-1/0/1/max-1/max of the 9 fixed-width types; 17 regex sources × all 64 flag sets (compared by source and flags, == reported separately); 8 range kinds × 9 endpoint pairs; " +
+			"lists/tuples/sets of ≤ 2 and maps/records of 1–2 entries over 21 atoms, and depth-2 collections over 15 depth-1 collections + 4 atoms (mutable collections are not used as set elements / map keys: they hash by identity); each is inspected, the text evaluated by checker+VM, the value compared with vm.Equal both ways + class. " +
 			"Integer literals: boundary set × bases 2/4/8/10/12/16 × 4 spellings (plain, `_` groups, upper-case, `_` after prefix) × no suffix + 9 fixed-width suffixes (in range and just out of range); decimal float-suffix forms; " +
 			"String#to_int through the Go API and the VM for the same digit strings with prefix/base 0, explicit base 2..36, sign, `_`, and malformed inputs (must raise FormatError). " +
 			"A case is counted non-trivial when its text needs an escape/quote/exponent/suffix/prefix or is a collection; enumeration is without repetition",
@@ -1141,8 +1141,12 @@ func pairs(elems []value.Value) []value.PairOfValue {
 
 func colls() []coll {
 	return []coll{
-		{"ArrayList", func(e []value.Value) (value.Value, bool) { return value.Ref(value.NewArrayListOfValueWithElements(0, e...)), true }, false},
-		{"ArrayTuple", func(e []value.Value) (value.Value, bool) { return value.Ref(value.NewArrayTupleOfValueWithElements(0, e...)), true }, false},
+		{"ArrayList", func(e []value.Value) (value.Value, bool) {
+			return value.Ref(value.NewArrayListOfValueWithElements(0, e...)), true
+		}, false},
+		{"ArrayTuple", func(e []value.Value) (value.Value, bool) {
+			return value.Ref(value.NewArrayTupleOfValueWithElements(0, e...)), true
+		}, false},
 		{"HashSet", func(e []value.Value) (value.Value, bool) {
 			s, err := vm.NewHashSetOfValueWithElements(th, e...)
 			if !err.IsUndefined() {
